@@ -19,6 +19,8 @@ From Coq Require Import ZArith List Bool Lia ZifyBool.
 Import ListNotations.
 Open Scope Z_scope.
 
+(* GivenNaN: passed with a non-finite value (NaN or +-inf): both front ends reject it up front with code 16
+   (C macro: !isfinite(var); Python: not math.isfinite(_v)) *)
 Inductive pres := Absent | GivenNaN | Given.
 Definition c_has (p : pres) : bool := match p with Given => true | _ => false end.
 Definition py_has (p : pres) : bool := match p with Absent => false | _ => true end.
